@@ -47,10 +47,17 @@ def phiFormula (n : Int) (fs : List Int) : Option Int :=
   if rest ≠ 1 ∨ fs.any (fun f => n % f ≠ 0) then none
   else some (fs.foldl (fun r f => r / f * (f - 1)) n)
 
+/-- primality by trial division up to the square root (for the few large primes the harness prints) -/
+def isPrimeGo (n : Nat) : Nat → Nat → Bool
+  | 0, _ => true
+  | fuel + 1, d => if d * d > n then true else if n % d == 0 then false else isPrimeGo n fuel (d + 1)
+def isPrimeTD (n : Nat) : Bool := n ≥ 2 && isPrimeGo n (2 ^ (n.log2 / 2 + 1) + 2) 2
+
 def numtheoLine (line : String) : String :=
   match splitLine line with
   | none => "BAD empty"
   | some (key, args, res) =>
+    if key == "harness" then "OK" else     -- `harness = ABORTED …`: the non-zero exit status of the harness is what the check reports
     if res == ["CRASH"] then s!"DIFF kind=SPEC model=- (the call aborted inside the library) | {line.trimAscii.toString}" else
     if res == ["TIMEOUT"] then s!"DIFF kind=SPEC model=- (the call did not return within the per-case time limit) | {line.trimAscii.toString}" else
     if res == ["NOINST"] then s!"DIFF kind=SPEC model=- (the member function does not instantiate on this tree) | {line.trimAscii.toString}" else
@@ -105,6 +112,18 @@ def numtheoLine (line : String) : String :=
           | none, some w' => isPrimRootSpec (w' % n).toNat n.toNat
           | _, none => false
         v (isPrimRootSpec (o % n).toNat n.toNat) ((match m with | some w => o == w | none => true) && mfOk) (showOpt m ++ "/" ++ showOpt mf)
+      | "primrootpk", p :: k :: two :: fl, [o] =>
+        -- n = p^k or 2 p^k; fl = the prime factors of phi(n) = p^(k-1)(p-1) printed by the harness, re-checked here (each a prime by
+        -- trial division, each dividing phi, together exhausting it); verdict by the criterion proved in `is_prim_root_iff`
+        if p < 3 ∨ k < 1 ∨ !isPrimeTD p.toNat then "PRE" else
+        let pk := p ^ k.toNat
+        let n := if two ≠ 0 then 2 * pk else pk
+        let ph := p ^ (k.toNat - 1) * (p - 1)
+        let listOk := fl.all (fun f => f ≥ 2 && isPrimeTD f.toNat && ph % f == 0) && (phiFormula ph fl).isSome
+        if !listOk then "BAD factor list | " ++ line.trimAscii.toString else
+        let spec := Int.gcd o n == 1 && fl.all (fun f => powmod o (ph / f).toNat n != 1) && powmod o ph.toNat n == 1
+        let mo := if p < 1000000 then (match primRootDet n with | some w => o == w | none => true) else true
+        v spec mo (if p < 1000000 then showOpt (primRootDet n) else "-")
       | "primrootp", [n], [o] =>
         if n < 2 ∨ n > bruteMax then "PRE" else
         v (isPrimRootSpec (o % n).toNat n.toNat) true "-"
